@@ -145,9 +145,10 @@ def one(edges, payload):
 def main():
     n = int(os.environ.get("FUZZ_N", "140"))
     cases = list(FIXED)
-    for s in range(n):
+    off = int(os.environ.get("FUZZ_OFF", "0"))
+    for s in range(off, off + n):
         rng = random.Random(s)
-        cases.append(gen(rng, rng.randint(3, 9)))
+        cases.append(gen(rng, rng.randint(3, int(os.environ.get("FUZZ_MAX", "9")))))
     for i, e in enumerate(cases):
         try:
             one(e, payload=(i % 2 == 0))
